@@ -245,6 +245,8 @@ func runC13(p *eng.Prog, r *eng.Report, tier string) {
 	})
 	r.Note("C13.9: %d start-element edges in token loops examined", nl)
 	c13StreamErrorArms(c, "C13.21")
+	xmlLangTagsNamespaced(c, "C13.27")
+	jidCore(c, "C13.26")
 	decodedStanzaNotRewritten(c, "C13.25", []string{"stanza.UnmarshalIQError"}, 1)
 	c13EveryTextWritten(c, "C13.24")
 	attrGetNotUsed(c, "C13.23")
